@@ -589,6 +589,18 @@ LastStartedChecks == <<
     \* cause check of SchedulerMadeOK reads it from the snapshot)
     <<\A id \in NewlyAssigned : TaskOf(Post, id).retry = 0, "C02:retry-count-carried-over-to-a-new-assignment">>,
     <<\A id \in NewlyAssigned : TaskOf(Post, id).retry = 0, "C06:retry-count-carried-over-to-a-new-assignment">>,
+    \* ... and within one assignment (the task stays EXECUTING on the same
+    \* worker from S to Post) the count only ever grows, by at most one per
+    \* section, and only in a Synchronize section of that worker: whatever
+    \* the worker reports in between (Executing updates included), re-issues
+    \* already made keep counting towards the limit
+    <<\A id \in Both(S, Post) \ NewlyAssigned :
+        (TaskOf(S, id).stage = "E" /\ TaskOf(Post, id).stage = "E") =>
+          /\ TaskOf(Post, id).retry >= TaskOf(S, id).retry
+          /\ TaskOf(Post, id).retry <= TaskOf(S, id).retry + 1
+          /\ (TaskOf(Post, id).retry # TaskOf(S, id).retry =>
+                (Call.kind = "sync" /\ Call.owner = TaskOf(S, id).worker)),
+      "C06:retry-count-changed-within-an-assignment-other-than-by-a-reissue">>,
     \* "then oldest": the age of a task counts from the section that created it
     \* (a background learning run inherits the time of its foreground task)
     <<(\A id \in NewTasks : (Call.kind = "execute" /\ (~TaskOf(Post, id).dnc \/ Call.dnc)) => TaskOf(Post, id).queued_at = Post.now)
